@@ -61,6 +61,9 @@ class FString(object):
     def candidates(self):
         actual_candidates = []
 
+        if len(self.node.values) == 0:
+            actual_candidates = ['f' + quote + quote for quote in self.allowed_quotes]
+
         for quote in self.allowed_quotes:
             candidates = ['']
             debug_specifier_candidates = []
